@@ -170,9 +170,17 @@ pub fn sample_set(rng: &mut Rng, p: &Params, shape: &Shape) -> SampleSet {
     // fifth of the samples exact copies of an earlier sample: every LZ group collects several
     // 50-entry packs and sees duplicate deltas in each of them
     let pack_stress = many && !orphan_mode && rng.chance(1, 2);
-    let ns = if pack_stress { rng.usize(105, shape.max_samples.max(106)) } else { ns };
+    let ns = if pack_stress {
+        rng.usize(105, shape.max_samples.max(106))
+    } else if orphan_mode {
+        // at least ~900 orphan contigs: each of the 16 raw groups then fills its first pack
+        // (placeholder + 49 entries) and starts a second one
+        rng.usize(90, shape.max_samples.max(91))
+    } else {
+        ns
+    };
     let nbase = if orphan_mode {
-        rng.usize(8, 10)
+        rng.usize(10, 13)
     } else if pack_stress {
         rng.usize(1, 2)
     } else if many {
@@ -242,7 +250,15 @@ pub fn sample_set(rng: &mut Rng, p: &Params, shape: &Shape) -> SampleSet {
             if si > 0 && nbase > 1 && rng.chance(1, 10) {
                 continue; // contig absent from this sample
             }
-            let mut d = if si == 0 { base[bi].clone() } else { derive_contig(rng, &base[bi], div, shape.iupac) };
+            let mut d = if si == 0 {
+                base[bi].clone()
+            } else if orphan_mode && rng.chance(4, 5) {
+                // unrelated tiny contigs: distinct entries (identical ones would be de-duplicated)
+                let l = rng.usize(1, k.saturating_sub(1).max(1));
+                random_bases(rng, l)
+            } else {
+                derive_contig(rng, &base[bi], div, shape.iupac)
+            };
             if si == 0 && shape.iupac && rng.chance(1, 6) {
                 // ambiguity codes in the reference sample as well
                 let n = rng.usize(1, 3);
